@@ -106,6 +106,13 @@ func (p *C08) Gen(seed uint64, i int, tier string) *scen.Scenario {
 	nLoggers := r.Range(1, 8)
 	nW := r.Range(1, 4)
 	wk := 0
+	nested := r.Chance(1, 4)
+	nrl := 0
+	if nested {
+		// some attribute values log a record of their own from inside String() (on a logger and a destination of their own)
+		sc.Setup = append(sc.Setup, scen.Op{Op: "new_root", R: c02NestedLogger, Name: "nested", Named: true, Opts: []scen.Op{{Kind: "writer", W: c02NestedWriter}, {Kind: "errwriter", W: c02NestedWriter}, {Kind: "level", Lvl: model.Always},
+			{Kind: scen.Pick(r, []string{"json", "color"}), B: []bool{r.Bool()}}}})
+	}
 	for id := 1; id <= nLoggers; id++ {
 		var op scen.Op
 		if id == 1 || r.Chance(1, 3) {
@@ -206,6 +213,9 @@ func (p *C08) Gen(seed uint64, i int, tier string) *scen.Scenario {
 					op.Args = append(op.Args, scen.Arg{K: "key", S: g.key()}, scen.Arg{K: "i", I: g.nv()})
 				case c < 8:
 					op.Args = append(op.Args, g.attr(true))
+				case nested && c == 8:
+					nrl++
+					op.Args = append(op.Args, scen.Arg{K: "attr", Key: "n" + g.key(), Items: []scen.Arg{{K: "relog", I: c02NestedLogger, S: tok(50000 + nrl)}}})
 				default:
 					op.Args = append(op.Args, scen.Arg{K: "attr", Key: "e" + g.key(), Items: []scen.Arg{{K: "err", S: fmt.Sprintf("err-%d", r.Intn(1000)), Y: r.Bool()}}})
 				}
@@ -275,6 +285,10 @@ func (p *C08) WellFormed(sc *scen.Scenario) bool {
 				}
 				if a.Items[0].K == "i" {
 					if !uniqueVal(a.Items[0].I, seen) {
+						return false
+					}
+				} else if a.Items[0].K == "relog" {
+					if a.Items[0].I != c02NestedLogger || !tokRe.MatchString(a.Items[0].S) || len(a.Items[0].S) < 8 {
 						return false
 					}
 				} else if a.Items[0].K != "err" {
@@ -459,6 +473,7 @@ func (p *C08) Check(sc *scen.Scenario, run *orch.Run, env *orch.Env) []orch.Viol
 			byPos[opKey("task", t.ID, i+1)] = t.Ops[i].Tok
 		}
 	}
+	nestedToks := relogTokens(sc)
 	reg := model.NewRegistry()
 	delivered := map[int]map[string]int{} // writer -> token -> count
 	ops := indexOps(run)
@@ -499,6 +514,14 @@ func (p *C08) Check(sc *scen.Scenario, run *orch.Run, env *orch.Env) []orch.Viol
 		var tk string
 		for k := range found {
 			tk = k
+		}
+		if nestedToks[tk] {
+			// the record a value logged from inside String(): whole, alone, at the nested logger's destination
+			// (how often the value is formatted, hence how many such records there are, is not prescribed)
+			if e.W != c02NestedWriter || len(e.P) == 0 || e.P[len(e.P)-1] != '\n' {
+				add("C08.torn", "nested", "the record logged from inside a value's String method arrived on destination %d as %.200q", e.W, text)
+			}
+			continue
 		}
 		c, ok := calls[tk]
 		if !ok {
